@@ -3,11 +3,11 @@ CONSTANTS
   Class = "stream"
   Ideal = FALSE
   KSet = {"n", "orph"}
-  NW <- W21
-  NR <- W12
+  NW <- W20
+  NR <- W02
   NC <- W11
   WMax = 3
   CMax = 2
-INVARIANTS TypeOK Fifo NoSpuriousError NoLoss RestClose RestRead RestWrite RestNoLoss ClosedStopsWrites
+INVARIANTS TypeOK Fifo NoSpuriousError NoLoss RestAll ClosedStopsWrites
 PROPERTIES ClosedForGood
 CHECK_DEADLOCK FALSE
